@@ -32,10 +32,15 @@ func c19r1(c *Ctx) {
 				continue
 			}
 			writes++
-			// the block writer: a DBStore method with three parameters (header, *Block, *Supplement)
-			if len(call.Expr.Args) != 3 || !prune.IsNil(call.Expr.Args[1]) || !prune.IsNil(call.Expr.Args[2]) {
-				good = false
+			// the block writer: a DBStore method with three parameters (header, *Block, *Supplement) …
+			if len(call.Expr.Args) == 3 && prune.IsNil(call.Expr.Args[1]) && prune.IsNil(call.Expr.Args[2]) {
+				continue
 			}
+			// … or one taking the stored record, whose body and supplement pointers were cleared before
+			if len(call.Expr.Args) == 1 && recordCleared(prune, call) {
+				continue
+			}
+			good = false
 		}
 		ob.Check(good && writes == 1, nil, "DBStore.PruneBlock must perform exactly one write: the block record as (header, nil, nil); found %d bucket-writing calls or a non-nil body/supplement", writes)
 	}
@@ -426,4 +431,85 @@ func c19r5(c *Ctx) {
 	if n == 0 {
 		ir.Fail("the store's ancestor-timestamp method (exported DBStore method returning (time.Time, bool)) not found")
 	}
+}
+
+// recordCleared: the single argument of the write is a struct value whose fields of type *types.Block and
+// *consensus.V1BlockSupplement are nil when the call is made: a literal that leaves them out (or sets them to nil), or
+// a local whose fields are assigned nil at a point that every path to the call passes, with no later write to them.
+func recordCleared(f *ir.Func, call ir.Call) bool {
+	isBody := func(t types.Type) bool {
+		pt, ok := t.(*types.Pointer)
+		return ok && (ir.IsNamed(pt.Elem(), ir.PkgPath("types"), "Block") || ir.IsNamed(pt.Elem(), ir.PkgPath("consensus"), "V1BlockSupplement"))
+	}
+	arg := ast.Unparen(call.Expr.Args[0])
+	st, ok := f.TypeOf(arg).Underlying().(*types.Struct)
+	if !ok {
+		return false
+	}
+	var bodies []*types.Var
+	for i := 0; i < st.NumFields(); i++ {
+		if isBody(st.Field(i).Type()) {
+			bodies = append(bodies, st.Field(i))
+		}
+	}
+	if len(bodies) == 0 {
+		return false
+	}
+	if cl, ok := arg.(*ast.CompositeLit); ok {
+		for _, el := range cl.Elts {
+			kv, isKV := el.(*ast.KeyValueExpr)
+			if !isKV {
+				return false // positional literal: all fields given
+			}
+			k, _ := kv.Key.(*ast.Ident)
+			for _, b := range bodies {
+				if k != nil && k.Name == b.Name() && !f.IsNil(kv.Value) {
+					return false
+				}
+			}
+		}
+		return true
+	}
+	rec := f.ObjOf(arg)
+	if rec == nil {
+		return false
+	}
+	g := f.Graph()
+	at := g.NodeContaining(call.Pos())
+	for _, b := range bodies {
+		cleared := false
+		for _, n := range g.Nodes {
+			if n.AST == nil || n == at {
+				continue
+			}
+			for _, w := range f.WritesIn(n.AST, false) {
+				sel, ok := ast.Unparen(w.LHS).(*ast.SelectorExpr)
+				if !ok || f.ObjOf(sel.X) != rec || f.FieldOf(sel) != b || w.RHS == nil || !f.IsNil(w.RHS) {
+					continue
+				}
+				if !g.DominatedByNode(at, n) {
+					continue
+				}
+				// nothing rewrites the field or the record between the clearing and the write
+				dirty := false
+				for m := range pathNodesBetween(g, n, at) {
+					if m.AST == nil || m == n {
+						continue
+					}
+					for _, w2 := range f.WritesIn(m.AST, false) {
+						if f.ObjOf(rootOfLvalue(w2.LHS)) == rec && !(w2.RHS != nil && f.IsNil(w2.RHS)) {
+							dirty = true
+						}
+					}
+				}
+				if !dirty {
+					cleared = true
+				}
+			}
+		}
+		if !cleared {
+			return false
+		}
+	}
+	return true
 }
